@@ -3,6 +3,7 @@
 package validator
 
 import (
+	"encoding/json"
 	"time"
 
 	"github.com/aml-org/amf-custom-validator/internal/types"
@@ -64,11 +65,11 @@ func VerifC03Report() {
 	text, err := BuildReport(&rs, clock, rc)
 	v.Assert("C03.no-error", err == nil && text != "")
 	v.Reach("encoded")
-	doc, ok := v.LastEncoded().([]types.ObjectMap)
-	v.Assert("C03.single-instance", ok && len(doc) == 1)
-	enc, ok := doc[0]["doc:encodes"].([]types.ObjectMap)
-	v.Assert("C03.single-report", ok && len(enc) == 1)
-	rep := enc[0]
+	rep, ctx, ok := verifReportParts(text)
+	v.Assert("C03.single-instance", ok)
+	if !ok {
+		return
+	}
 	v.Assert("C03.conforms", rep["conforms"] == (nv == 0))
 	v.Assert("C03.profileName", rep["profileName"] == name)
 	results, has := rep["result"].([]any)
@@ -97,7 +98,6 @@ func VerifC03Report() {
 		v.Assert("C03.dateCreated", !hasDate)
 	}
 	// frame: the configuration changes nothing but dateCreated and the two schema context entries
-	ctx := doc[0]["@context"].(types.ObjectMap)
 	v.Assert("C03.config-frame.reportSchema", ctx["reportSchema"] == rc.ReportSchemaIri+"#/declarations/")
 	if total > 0 {
 		v.Assert("C03.config-frame.lexicalSchema", ctx["lexicalSchema"] == rc.LexicalSchemaIri+"#/declarations/")
@@ -117,4 +117,33 @@ func VerifC03EmptyResultSet() {
 	text, err := BuildReport(&rs, verifClock{}, c.DefaultReportConfiguration())
 	v.Reach("returned")
 	v.Assert("C03.empty-resultset-is-error", err != nil && text == "")
+}
+
+// verifReportParts returns the report node and the @context of the dialect instance: from the
+// structure handed to the encoder under the symbolic executor, from the JSON text natively.
+func verifReportParts(text string) (rep types.ObjectMap, ctx types.ObjectMap, ok bool) {
+	if v.Symbolic() {
+		doc, isDoc := v.LastEncoded().([]types.ObjectMap)
+		if !isDoc || len(doc) != 1 {
+			return nil, nil, false
+		}
+		enc, isEnc := doc[0]["doc:encodes"].([]types.ObjectMap)
+		if !isEnc || len(enc) != 1 {
+			return nil, nil, false
+		}
+		ctx, _ = doc[0]["@context"].(types.ObjectMap)
+		return enc[0], ctx, true
+	}
+	var doc []any
+	if err := json.Unmarshal([]byte(text), &doc); err != nil || len(doc) != 1 {
+		return nil, nil, false
+	}
+	inst, _ := doc[0].(map[string]any)
+	enc, _ := inst["doc:encodes"].([]any)
+	if len(enc) != 1 {
+		return nil, nil, false
+	}
+	rep, _ = enc[0].(map[string]any)
+	ctx, _ = inst["@context"].(map[string]any)
+	return rep, ctx, rep != nil
 }
